@@ -51,3 +51,12 @@ package fmap
 //@ o-ensures: when nresults(typs[0])=1 [value] result(1, g) == nil ==> r0 == f(result(0, g))
 //@ o-ensures: when nresults(typs[0])=2 [value] result(1, g) == nil ==> result(0, r0) == result(0, f, result(0, g)) && result(1, r0) == result(1, f, result(0, g))
 //@ o-ensures: when nresults(typs[0])=3 [value] result(1, g) == nil ==> result(0, r0) == result(0, f, result(0, g)) && result(1, r0) == result(1, f, result(0, g)) && result(2, r0) == result(2, f, result(0, g))
+
+// channel form (C19 is outside a sequential calculus): text-level obligations only (C01, C09)
+//@ func (g *gen) genChan(typs []types.Type) (err error)
+//@ param typs: len=2
+//@ emits: decls
+//@ serves: fmap len=2 kind1=Chan typs=typs
+//@ o-sig: (f func($param0(typs[0])) $result0(typs[0]), in <-chan $param0(typs[0])) (r <-chan $result0(typs[0]))
+//@ o-header: unchecked
+//@ o-text-only: all
